@@ -1,5 +1,6 @@
 import I18n.Lemmas.CFmtRuns
 import I18n.Model.CFmtRe
+import I18n.Generated.CFmtRe
 import I18n.Lemmas.CFmtStar
 import I18n.Lemmas.CFmtWitness
 /-!
